@@ -4,14 +4,102 @@ from . import common, tier_e
 LEVEL = 'proof'
 
 
+STATE_BEHIND_THE_COMMAND = ('nbdime.utils', 'nbdime.nbmergeapp', 'nbdime.vcs.git.mergedriver')
+
+
+def _rewrite_job(job):
+    """Two runs of the merge command in ONE process on the same three paths; between the runs one input is replaced by different
+    content of the same byte size and the same mtime (cp -p, rsync -t, a coarse file system clock).  Each run must report and write
+    what the library merge of the files then on disk gives."""
+    seed, n = job
+    import io, json, logging, os, random, shutil, tempfile
+    logging.disable(logging.CRITICAL)
+    import nbformat
+    from bounded import nbspace
+    from nbdime import nbmergeapp
+    from nbdime.merging import merge_notebooks
+    from nbdime.utils import read_notebook
+    rnd = random.Random(seed)
+    out, cnt = [], 0
+    for k in range(n):
+        lines = ['a = 1\n', 'b = 1\n', 'c = 1\n', 'd = 1\n']
+        def nb(src):
+            return nbspace.notebook([nbspace.code_cell(src)], minor=5)
+        i, j = rnd.sample(range(4), 2)
+        v1, v2, v3 = rnd.sample('23456789', 3)
+        local = list(lines); local[i] = local[i].replace('1', v1)
+        remote1 = list(lines); remote1[j] = remote1[j].replace('1', v2)      # another line: merges cleanly
+        remote2 = list(lines); remote2[i] = remote2[i].replace('1', v3)      # the same line as local: conflicts; same size as remote1
+        d = tempfile.mkdtemp(prefix='nbdime-verif-c08-')
+        try:
+            paths = {x: os.path.join(d, x + '.ipynb') for x in ('base', 'local', 'remote', 'out')}
+            for x, src in (('base', lines), ('local', local), ('remote', remote1)):
+                with io.open(paths[x], 'w', encoding='utf8') as fh:
+                    nbformat.write(nb(''.join(src)), fh)
+            st = os.stat(paths['remote'])
+            for run, src in ((1, remote1), (2, remote2)):
+                if run == 2:
+                    with io.open(paths['remote'], 'w', encoding='utf8') as fh:
+                        nbformat.write(nb(''.join(src)), fh)
+                    if os.stat(paths['remote']).st_size != st.st_size:
+                        break                     # not the shape this scenario is about
+                    os.utime(paths['remote'], ns=(st.st_atime_ns, st.st_mtime_ns))
+                cnt += 1
+                def rd(pth):                       # read with nbformat directly: the oracle must not share nbdime's reader
+                    with io.open(pth, encoding='utf8') as fh:
+                        return nbformat.read(fh, as_version=4)
+                want, dec = merge_notebooks(rd(paths['base']), rd(paths['local']), rd(paths['remote']), None)
+                conflicted = any(x.conflict for x in dec)
+                if os.path.exists(paths['out']):
+                    os.unlink(paths['out'])
+                try:
+                    status = nbmergeapp.main([paths['base'], paths['local'], paths['remote'], '--out', paths['out']])
+                except SystemExit as exc:
+                    status = exc.code
+                except Exception as exc:
+                    out.append(('rewrite-crash', 'nbmerge raised %s: %s on run %d over the same paths' % (type(exc).__name__, exc, run), {'seed': seed, 'n': n, 'index': k}))
+                    break
+                got = None
+                if os.path.exists(paths['out']):
+                    with io.open(paths['out'], encoding='utf8') as fh:
+                        got = nbformat.read(fh, as_version=4)      # the on-disk form splits multi-line strings into lists
+                if bool(status) != conflicted:
+                    out.append(('rewrite-status', 'run %d of nbmerge in one process over the same paths (remote replaced by different content of the same size and mtime): '
+                                'exit status %r but the library merge of the files on disk has conflicts=%s' % (run, status, conflicted), {'seed': seed, 'n': n, 'index': k}))
+                elif got is None or nbspace.canon(got) != nbspace.canon(want):
+                    out.append(('rewrite-output', 'run %d of nbmerge in one process over the same paths (remote replaced by different content of the same size and mtime): '
+                                'the output is not the library merge of the files on disk' % run, {'seed': seed, 'n': n, 'index': k}))
+        finally:
+            shutil.rmtree(d, ignore_errors=True)
+    return cnt, out
+
+
+def replay_rewrite(where):
+    cnt, out = _rewrite_job((where['seed'], where['n']))
+    return [o for o in out if o[2]['index'] == where['index']]
+
+
 def run(res):
     from contracts import kit_e
+    # frame part (Kit F, restricted): no module-level mutable state behind the command (a cache of parsed inputs would make the result
+    # depend on what the process read before)
+    from . import c12
+    for kind, text, where in c12.frame_obligations(res, STATE_BEHIND_THE_COMMAND):
+        res.violation('frame obligation fails: %s' % text, {'kind': 'failed-frame-obligation', 'obligation': where, 'detail': text}, no_input=True)
     tier_e.run(res, [('nbdime.nbmergeapp.main_merge', kit_e.MAIN_MERGE, kit_e.MAIN_MERGE_POST),
                      ('nbdime.vcs.git.mergedriver.main', kit_e.MERGEDRIVER, kit_e.MERGEDRIVER_POST)], 'c08_bounded',
                'Every control-flow path of the real main_merge and mergedriver.main (exceptional edge after every call) satisfies: status 0 iff no conflicted decision; '
                'merge_notebooks gets the three notebooks read from args.base/local/remote; no output effect before merge_notebooks returned; exactly one complete '
                'nbformat.write of the returned notebook to --out/stdout; no handler swallows an exception; the driver sets out=local, decisions=False and returns '
                'main_merge\'s status unchanged.')
+    seen = set()
+    for cnt, fails in common.pmap(_rewrite_job, [(res.seed * 4099 + k, 3 if res.tier == 'quick' else 10) for k in range(8 if res.tier == 'quick' else 32)]):
+        res.evaluations += cnt
+        for kind, detail, where in fails:
+            if kind in seen:
+                continue
+            seen.add(kind)
+            res.violation('%s [%s]' % (detail, kind), dict(where, replay_kind='call', module='checks.c08', function='replay_rewrite', args=[where]))
 
 
 def replay(path):
